@@ -48,3 +48,25 @@ package proto
 //@ iface WriterI.Close
 //@   ensures pwClosed(this)
 //@   modifies pwClosed(this)
+
+// Sequential protobuf reader as its users see it (flag files of compactions, index loaders).
+//@ ghost prClosed(r Ref) Bool
+//@ func ReaderPath
+//@   assumed
+//@   modifies nothing
+//@ func NewReader
+//@   assumed
+//@   ensures r1 == nil ==> r0 != nil && !prClosed(r0)
+//@   ensures r1 != nil ==> r0 == nil
+//@   fresh r0
+//@   modifies nothing
+
+//@ iface ReaderI.Open
+//@   modifies nothing
+
+//@ iface ReaderI.ReadNext
+//@   modifies fresh(*)
+
+//@ iface ReaderI.Close
+//@   ensures prClosed(this)
+//@   modifies prClosed(this)
